@@ -93,7 +93,10 @@ CLAIMED = {
          "fallback) and every fixed control word has odd parity in each byte (writer_bytes_odd_parity, fixed_words_odd_parity); for rows 1-15 the writer's "
          "preamble is decoded by the READER's table as exactly that row at column 0 (writer_pac_decodes_to_row); bottom alignment keeps rows within 1-15 "
          "(rows_1_15); every character code of the writer's tables is decoded by the reader's tables as that character, and no two characters share a code "
-         "(writer_chars_decode_back, writer_codes_injective). Executable model of _text_to_code, the pre-roll pass and _format_timestamp compared byte-for-byte with the writer's output; the output is "
+         "(writer_chars_decode_back, writer_codes_injective); for EVERY line of basic characters the writer model emits, after the row's preambles, exactly "
+         "the words of its characters two by two, a last single one completed by the filler byte (written_line_is_words), and the READER model - from any state, "
+         "in any mode - takes these words for character words only and the text it holds grows by exactly the line's characters, in order "
+         "(written_row_rereads: a word beginning with a basic code is in none of the command, preamble, special, extended, tab-offset tables; conservation from C16). Executable model of _text_to_code, the pre-roll pass and _format_timestamp compared byte-for-byte with the writer's output; the output is "
          "checked structurally (header, hex words, parity, rows, 32 columns, breaks at spaces only, non-decreasing timecodes, visible within 3 frames) and "
          "re-read with the real SCCReader (same words, one caption per caption)."),
    ref="§3 C17", technique="Lean 4 proof (decide +kernel over generated tables, omega) + byte-level correspondence + structural oracle + re-read",
